@@ -21,6 +21,16 @@ here.  Both transcriptions of the broker (Python here, Lean `resp`/`idxOk`/`deci
 on every generated case; a disagreement is harness trouble (exit 2), never a violation.
 A second, faulty stream (arbitrary batch sequences and index lists that obey no broker contract)
 ties the mechanism alone and checks the clauses that need no contract (`holdsRaw`).
+A third stream ("wire" jobs, class `Wire`) covers the glue between the wire and PartitionRecords for
+every Fetch version the client can negotiate (v1..v11) and both levels: whole sessions in which a real
+`Fetcher` builds the FetchRequest from the position (`_get_actions_per_node`), a simulated broker
+prepares it for exactly version v, reads offset / isolation level back from the encoded request and
+answers with a real encoded-and-decoded `FetchResponse_v<v>` (batches, high watermark, LSO,
+aborted-transaction list, sometimes a cut-off partial batch at the end), and the real
+`Fetcher._proc_fetch_request` turns it into the FetchResult that is consumed and compared as above;
+additionally the index that reached PartitionRecords and the LSO / high watermark recorded for the
+partition must equal what the response carried.  Below v4 there is no isolation level on the wire:
+a read_committed request must not yield uncommitted data (the builder refuses; observed).
 Work is spread over worker processes; every job derives its PRNG from (VERIF_SEED, job name).
 """
 import gc
@@ -265,6 +275,9 @@ class Impl:
         self.mr = importlib.import_module("aiokafka.record.memory_records")
         self.util = importlib.import_module("aiokafka.record.util")
         self.structs = importlib.import_module("aiokafka.structs")
+        self.fetch_proto = importlib.import_module("aiokafka.protocol.fetch")
+        self.errors = importlib.import_module("aiokafka.errors")
+        self.wire = None
         self.tp = self.structs.TopicPartition("t", 0)
         self.compiled = self.mr.MemoryRecords is not self.mr._MemoryRecordsPy
         self.cache = {}
@@ -323,32 +336,10 @@ class Impl:
             st = _State(f)
             fr = F.FetchResult(self.tp, assignment=_Assign(st), partition_records=pr, backoff=0)
             got = []
-            status = "part"
-            pids = {}
-            for b in batches:
-                for o in b.recs:
-                    pids[o] = b.pid
             old = signal.signal(signal.SIGVTALRM, _on_alarm)
             signal.setitimer(signal.ITIMER_VIRTUAL, CPU_LIMIT_S)
             try:
-                for op in script:
-                    if not fr.has_more():
-                        break
-                    if op == "all":
-                        msgs = fr.getall()
-                    elif op == "one":
-                        m = fr.getone()
-                        msgs = [] if m is None else [m]
-                    else:
-                        msgs = fr.getall(max_records=op)
-                    for m in msgs:
-                        if m.key != key_of(m.offset) or m.value != val_of(m.offset, pids.get(m.offset, 0)):
-                            # not a data record of this log at that offset (e.g. a marker's payload)
-                            got.append(-1 - m.offset)
-                        else:
-                            got.append(m.offset)
-                if not fr.has_more():
-                    status = "all"
+                status = consume(fr, script, batches, got)
             except _Hang:
                 status = "hang"
             except Exception as ex:  # noqa
@@ -359,6 +350,226 @@ class Impl:
             return got, st.position, status, len(got)
         finally:
             self.mr.DefaultRecordBatch = saved
+
+
+def consume(fr, script, batches, got):
+    """drive a FetchResult per `script`; appends delivered offsets to `got`; returns all|part"""
+    pids = {}
+    for b in batches:
+        for o in b.recs:
+            pids[o] = b.pid
+    for op in script:
+        if not fr.has_more():
+            break
+        if op == "all":
+            msgs = fr.getall()
+        elif op == "one":
+            m = fr.getone()
+            msgs = [] if m is None else [m]
+        else:
+            msgs = fr.getall(max_records=op)
+        for m in msgs:
+            if m.key != key_of(m.offset) or m.value != val_of(m.offset, pids.get(m.offset, 0)):
+                # not a data record of this log at that offset (e.g. a marker's payload)
+                got.append(-1 - m.offset)
+            else:
+                got.append(m.offset)
+    return "part" if fr.has_more() else "all"
+
+
+class Wire:
+    """The glue between a Fetch response on the wire and PartitionRecords, for every Fetch version
+    the client can negotiate: a real `Fetcher` (one per isolation level) on a private event loop;
+    its own `_get_actions_per_node` builds the FetchRequest from the position, `client.send` is a
+    simulated broker that prepares the request for exactly version v (as a connection whose
+    ApiVersions range is (v, v) would), reads fetch offset and isolation level back from the encoded
+    request, and answers with a real, encoded-and-decoded `FetchResponse_v<v>` struct carrying the
+    planned batches, high watermark, last stable offset and aborted-transaction list; the real
+    `_proc_fetch_request` turns that into the FetchResult that is then consumed like everywhere
+    else.  Observed besides the delivery: isolation level / offset on the wire, the index that
+    reached PartitionRecords, the LSO / high watermark recorded for the partition."""
+
+    def __init__(self, impl):
+        import asyncio
+        self.asyncio = asyncio
+        self.impl = impl
+        self.loop = asyncio.new_event_loop()
+        self.fetchers = {}
+        self.plan = None
+        self.obs = None
+        F = impl.fetcher
+        self.req_classes = {c.API_VERSION: c for c in impl.fetch_proto.FetchRequest._CLASSES}
+        self.versions = sorted(self.req_classes)
+        wire = self
+
+        class _Cluster:
+            def leader_for_partition(self, tp_):
+                return 0
+
+            def broker_metadata(self, n):
+                return object()
+
+        class _Client:
+            _loop = self.loop
+            _metadata_max_age_ms = 300000
+            cluster = _Cluster()
+
+            def force_metadata_update(self):
+                pass
+
+            async def send(self, node, req):
+                return wire.broker(req)
+
+        class _Subs:
+            subscription = None
+
+            def register_fetch_waiters(self, w):
+                pass
+
+            def wait_for_assignment(self):
+                return wire.loop.create_future()
+
+        async def mk(name):
+            return F.Fetcher(_Client(), _Subs(), isolation_level=name, retry_backoff_ms=0)
+
+        for lvl, name in (("rc", "read_committed"), ("ru", "read_uncommitted")):
+            self.fetchers[lvl] = self.loop.run_until_complete(mk(name))
+
+    def close(self):
+        try:
+            for f in self.fetchers.values():
+                self.loop.run_until_complete(f.close())
+        finally:
+            self.loop.close()
+
+    # ---- the simulated broker
+    def broker(self, req):
+        plan, obs = self.plan, self.obs
+        v = plan["v"]
+        try:
+            st = req.prepare({req.API_KEY: (v, v)})
+        except self.impl.errors.IncompatibleBrokerVersion:
+            obs["refused"] = True
+            raise
+        if st.API_VERSION != v:
+            raise HarnessError(f"prepare((v,v)) gave version {st.API_VERSION} for v={v}")
+        back = type(st).decode(st.encode())
+        obs["wire_level"] = getattr(back, "isolation_level", None)
+        (topic, parts), = back.topics
+        names = st.SCHEMA.fields[st.SCHEMA.names.index("topics")].array_of.fields[1].array_of.names
+        off_name = "fetch_offset" if "fetch_offset" in names else "offset"
+        obs["wire_offset"] = parts[0][names.index(off_name)]
+        if v < 4 and plan["lvl"] == "rc":
+            # a broker that knows no isolation level answers with everything below the high watermark
+            ret, e, idx = env_fetch(plan["log"], "ru", obs["wire_offset"], random.Random(0), cut=plan["cutn"], extras=False)
+            idx = None
+            obs["answered_as_ru"] = {"ret": [b.base for b in ret], "e": e}
+        else:
+            ret, e, idx = plan["ret"], plan["e"], plan["idx"]
+        obs["ret"] = ret
+        data = b"".join(self.impl.encode(b) for b in ret) + plan["tail"]
+        Resp = st.RESPONSE_TYPE
+        sch = Resp.SCHEMA
+        tf = sch.fields[sch.names.index("topics")]
+        pnames = tf.array_of.fields[1].array_of.names
+        pv = {"partition": 0, "error_code": 0, "highwater_offset": plan["hw"], "last_stable_offset": plan["lso"],
+              "log_start_offset": 0, "aborted_transactions": (None if idx is None else [tuple(t) for t in idx]),
+              "preferred_read_replica": -1, "message_set": data}
+        tv = {"throttle_time_ms": 0, "error_code": 0, "session_id": 0}
+        try:
+            ptuple = tuple(pv[n] for n in pnames)
+            args = [([("t", [ptuple])] if n == "topics" else tv[n]) for n in sch.names]
+        except KeyError as ex:
+            raise HarnessError(f"FetchResponse v{v}: field {ex} unknown to the harness")
+        obs["resp_fields"] = list(pnames)
+        return Resp.decode(Resp(*args).encode())
+
+    def run(self, log, ret, e, idx, f, lvl, script, variant, v, tailn, cutn):
+        """one fetch over the wire at Fetch version v.  Returns (got, pos, status, took, obs)"""
+        impl = self.impl
+        F = impl.fetcher
+        hw = env_hw(log)
+        nxt = [b for b in log if b.present and b.base >= e and ret and b.base > ret[-1].last]
+        # a strictly partial copy of the next batch (what max_bytes cuts off); never the whole batch
+        tail = impl.encode(nxt[0])[:min(tailn, len(impl.encode(nxt[0])) - 1)] if (nxt and tailn) else b""
+        self.plan = {"v": v, "lvl": lvl, "log": log, "ret": ret, "e": e,
+                     "idx": (idx if lvl == "rc" else None), "hw": hw, "lso": env_lso(log, hw), "tail": tail, "cutn": cutn}
+        self.obs = obs = {}
+        fetcher = self.fetchers[lvl]
+        st = _WState(f)
+        assign = _WAssign(st, impl.tp)
+        saved = (impl.mr.DefaultRecordBatch, F.MemoryRecords)
+        if variant == "py":
+            impl.mr.DefaultRecordBatch = impl.dr._DefaultRecordBatchPy
+            F.MemoryRecords = impl.mr._MemoryRecordsPy
+        got = []
+        old = signal.signal(signal.SIGVTALRM, _on_alarm)
+        signal.setitimer(signal.ITIMER_VIRTUAL, CPU_LIMIT_S)
+        try:
+            fetcher._records.clear()
+            reqs = fetcher._get_actions_per_node(assign)[0]
+            if len(reqs) != 1:
+                return got, st.position, "no-request", 0, obs
+            node, req = reqs[0]
+            self.loop.run_until_complete(fetcher._proc_fetch_request(assign, node, req))
+            fr = fetcher._records.pop(impl.tp, None)
+            if obs.get("refused"):
+                status = "refused" if fr is None else "refused-but-result"
+            elif fr is None:
+                status = "all"           # response dropped: nothing delivered, position unchanged
+            elif not hasattr(fr, "getall"):
+                try:
+                    fr.check_raise()
+                    status = "raise:unknown"
+                except Exception as ex:  # noqa
+                    status = "raise:" + type(ex).__name__
+            else:
+                pr = getattr(fr, "_partition_records", None)
+                handed = getattr(pr, "_aborted_transactions", None)
+                if handed is not None:
+                    obs["handed_index"] = sorted((int(p), int(o)) for p, o in handed)
+                obs["state_lso"] = st.lso
+                obs["state_hw"] = st.highwater
+                status = consume(fr, script, obs.get("ret") or ret, got)
+        except _Hang:
+            status = "hang"
+        except HarnessError:
+            raise
+        except Exception as ex:  # noqa
+            status = "raise:" + type(ex).__name__
+        finally:
+            signal.setitimer(signal.ITIMER_VIRTUAL, 0)
+            signal.signal(signal.SIGVTALRM, old)
+            impl.mr.DefaultRecordBatch, F.MemoryRecords = saved
+            fetcher._records.clear()
+        obs.pop("ret", None)
+        return got, st.position, status, len(got), obs
+
+
+class _WState:
+    paused = False
+    has_valid_position = True
+    resume_fut = None
+    highwater = "unset"
+    lso = "unset"
+    timestamp = None
+
+    def __init__(self, pos):
+        self.position = pos
+
+    def consumed_to(self, pos):
+        self.position = pos
+
+
+class _WAssign:
+    active = True
+
+    def __init__(self, st, tp):
+        self.st = st
+        self.tps = [tp]
+
+    def state_value(self, tp):
+        return self.st
 
 
 class _State:
@@ -399,8 +610,10 @@ def gen_script(rng):
 
 
 # ------------------------------------------------------------------------------- cases
-def session_cases(log, lvl, f0, rng, variant, max_fetches=60, cuts=None, scripts=None, extras=None):
-    """plan a consumer session lazily: yields fetch descriptions; the caller sends back the position"""
+def session_cases(log, lvl, f0, rng, variant, max_fetches=60, cuts=None, scripts=None, extras=None, wire=None):
+    """plan a consumer session lazily: yields fetch descriptions; the caller sends back the position.
+    wire = Fetch API version: the response travels as a real FetchResponse_v<wire> struct through the
+    real Fetcher._proc_fetch_request"""
     pos = f0
     n = 0
     while n < max_fetches:
@@ -408,9 +621,13 @@ def session_cases(log, lvl, f0, rng, variant, max_fetches=60, cuts=None, scripts
         if not ret:
             return
         script = gen_script(rng) if scripts is None else scripts
-        newpos = yield {"kind": "fetch", "lvl": lvl, "f": pos, "e": e, "idx": idx, "log": log_text(log),
-                        "script": script, "variant": variant,
-                        "gz": [b.base for b in log if b.gz], "ret": [b.base for b in ret]}
+        c = {"kind": "fetch", "lvl": lvl, "f": pos, "e": e, "idx": idx, "log": log_text(log),
+             "script": script, "variant": variant,
+             "gz": [b.base for b in log if b.gz], "ret": [b.base for b in ret]}
+        if wire is not None:
+            c["wire"] = wire
+            c["tail"] = rng.choice([0, 0, 0, 5, 20, 61, 70])     # bytes of the next batch cut off by max_bytes
+        newpos = yield c
         n += 1
         pos = newpos
 
@@ -429,7 +646,19 @@ def exec_case(impl, c):
     else:
         ret = log
     idx = c["idx"]
-    got, pos, status, took = impl.run(ret, idx if idx is not None else None, c["f"], c["lvl"], c["script"], c["variant"])
+    if c.get("wire") is not None:
+        if impl.wire is None:
+            impl.wire = Wire(impl)
+        got, pos, status, took, obs = impl.wire.run(log, ret, c["e"], idx or [], c["f"], c["lvl"], c["script"],
+                                                    c["variant"], c["wire"], c.get("tail", 0), len(ret))
+        if "answered_as_ru" in obs:
+            # Fetch < v4 knows no isolation level and the request was not refused: the broker answered
+            # as for read_uncommitted; the case now describes what really travelled
+            c["e"], c["idx"], c["ret"] = obs["answered_as_ru"]["e"], [], obs["answered_as_ru"]["ret"]
+            c["unrefused"] = True
+        c["obs"] = obs
+    else:
+        got, pos, status, took = impl.run(ret, idx if idx is not None else None, c["f"], c["lvl"], c["script"], c["variant"])
     c["impl"] = [got, pos, status, took]
     if status == "hang":
         raise _JobAbort(c)
@@ -438,7 +667,7 @@ def exec_case(impl, c):
 
 def model_line(c):
     got, pos, status, took = c["impl"]
-    tk = "all" if status in ("all", "empty", "hang") or status.startswith("raise") else str(took)
+    tk = str(took) if status == "part" else "all"
     idx = c["idx"] or []
     if c["kind"] == "fetch":
         return f"c08 fetch {c['lvl']} {c['f']} {c['e']} {idx_text(idx)} {c['log']} {tk}"
@@ -447,13 +676,21 @@ def model_line(c):
 
 def impl_text(c):
     got, pos, status, took = c["impl"]
-    if status.startswith("raise") or status == "hang":
+    if status not in ("all", "part", "empty"):
         return f"{csv(got)} {pos} {status}"
     return f"{csv(got)} {pos}"
 
 
 def classify(c, truth, end):
     """signature + text for a property failure of a well-formed case"""
+    sig, text = _classify(c, truth, end)
+    if c.get("wire") is not None:
+        sig += f"@fetch-v{c['wire']}"
+        text += f" (response travelled as FetchResponse_v{c['wire']} through Fetcher._proc_fetch_request)"
+    return sig, text
+
+
+def _classify(c, truth, end):
     got, pos, status, took = c["impl"]
     log = parse_log(c["log"])
     lvl = c["lvl"]
@@ -461,6 +698,8 @@ def classify(c, truth, end):
         return f"c08:{lvl}:{status}", f"iteration raised {status[6:]}; position stays at {pos}"
     if status == "hang":
         return f"c08:{lvl}:hang", f"iteration did not terminate within {CPU_LIMIT_S} CPU seconds"
+    if status in ("refused", "refused-but-result", "no-request"):
+        return f"c08:{lvl}:{status}", f"the fetch was not performed ({status}); position stays at {pos}"
     by_off = {}
     for b in log:
         for o in b.recs:
@@ -502,7 +741,7 @@ def classify(c, truth, end):
 
 
 def replay_of(c):
-    return {k: c[k] for k in ("kind", "lvl", "f", "e", "idx", "log", "script", "variant", "gz") if k in c}
+    return {k: c[k] for k in ("kind", "lvl", "f", "e", "idx", "log", "script", "variant", "gz", "wire", "tail") if k in c}
 
 
 # ------------------------------------------------------------------------------- evaluation of a batch of cases
@@ -547,10 +786,45 @@ def evaluate(exe, cases, sessions, generated):
         R["n"] += 1
         h = int.from_bytes(hashlib.blake2b(lines[i].encode(), digest_size=8).digest(), "big")
         bump("status:" + status.split(":")[0])
+        w = c.get("wire")
+        if w is not None:
+            obs = c.get("obs", {})
+            bump(f"wire:v{w}:{c['lvl']}")
+            must_refuse = w < 4 and c["lvl"] == "rc"
+            if status == "refused" and must_refuse:
+                bump("wire:read_committed-below-v4-refused")
+                R["hashes"].append(h)
+                continue
+            if must_refuse:
+                bump("wire:read_committed-below-v4-NOT-refused")
+            ws = f"@fetch-v{w}"
+            where = f"fetch offset {c['f']}, log {c['log'][:300]}"
+            if "wire_offset" in obs and obs["wire_offset"] != c["f"]:
+                prop_fail("c08:wire:fetch-offset-on-wire" + ws, f"FetchRequest v{w} asks for offset {obs['wire_offset']}, "
+                          f"the position is {c['f']}; {where}", [c], str(obs["wire_offset"]), str(c["f"]))
+            if w >= 4 and "wire_level" in obs and obs["wire_level"] != (1 if c["lvl"] == "rc" else 0):
+                prop_fail("c08:wire:isolation-level-on-wire" + ws, f"consumer level {c['lvl']}: FetchRequest v{w} carries "
+                          f"isolation_level {obs['wire_level']}; {where}", [c], str(obs["wire_level"]), c["lvl"])
+            if "handed_index" in obs:
+                sent_idx = sorted((int(p_), int(o_)) for p_, o_ in (c["idx"] or [])) if (c["lvl"] == "rc" and w >= 4) else []
+                if obs["handed_index"] != sent_idx:
+                    prop_fail("c08:wire:aborted-index-not-handed-over" + ws,
+                              f"FetchResponse v{w} carried aborted_transactions {sent_idx} but PartitionRecords was built "
+                              f"with {obs['handed_index']}; {where}", [c], str(obs["handed_index"]), str(sent_idx))
+                else:
+                    bump("wire:index-handed-over-intact")
+            if w >= 4 and "state_lso" in obs:
+                log_ = parse_log(c["log"])
+                want_lso = env_lso(log_, env_hw(log_))
+                if obs["state_lso"] != want_lso or obs["state_hw"] != env_hw(log_):
+                    prop_fail("c08:wire:lso-not-recorded" + ws,
+                              f"FetchResponse v{w} carried last_stable_offset {want_lso} / high watermark {env_hw(log_)} but "
+                              f"the partition state holds lso={obs['state_lso']} highwater={obs['state_hw']}; {where}",
+                              [c], f"{obs['state_lso']} {obs['state_hw']}", f"{want_lso} {env_hw(log_)}")
         if c["kind"] == "fetch":
             head, _, tail = r.partition(" | ")
             flags = dict(t.split("=", 1) for t in tail.split(" "))
-            if generated and (flags["wf"] != "T" or flags["idx"] != "T" or (c["lvl"] == "rc" and flags["dec"] != "T")
+            if generated and not c.get("unrefused") and (flags["wf"] != "T" or flags["idx"] != "T" or (c["lvl"] == "rc" and flags["dec"] != "T")
                               or flags["resp"] != csv(c["ret"])):
                 # the two transcriptions of the broker must agree (else the harness is wrong, not the code)
                 R["harness"] = f"broker transcriptions disagree: {lines[i][:400]} -> {tail} (python ret {c['ret']})"
@@ -578,7 +852,7 @@ def evaluate(exe, cases, sessions, generated):
             ret_b = [b for b in log if b.base in rset]
             if any(b.txn or b.kind != "d" for b in ret_b):
                 R["hashes"].append(h)
-            bump("fetch:" + c["lvl"] + ":" + c["variant"])
+            bump(("wire-" if w is not None else "") + "fetch:" + c["lvl"] + ":" + c["variant"])
             if c["idx"]:
                 bump("index-nonempty")
                 firsts = [f_ for _, f_ in c["idx"]]
@@ -635,12 +909,13 @@ def evaluate(exe, cases, sessions, generated):
         delivered = [o for c in cs for o in c["impl"][0]]
         ref = reference_reader(log, lvl, f0)
         last = cs[-1]
-        finished = not any(c["impl"][2].startswith("raise") or c["impl"][2] == "hang" for c in cs) and \
+        finished = not any(c["impl"][2] not in ("all", "part") for c in cs) and \
             not env_fetch(log, lvl, last["impl"][1], random.Random(0), cut=1)[0]
         if finished:
             R["sess_full"] += 1
         if (finished and delivered != ref) or (not finished and delivered != ref[:len(delivered)]):
-            prop_fail(f"c08:{lvl}:session-differs-from-reference-reader",
+            ws = f"@fetch-v{cs[0]['wire']}" if cs[0].get("wire") is not None else ""
+            prop_fail(f"c08:{lvl}:session-differs-from-reference-reader{ws}",
                       f"session from {f0} delivered {delivered[:40]} but the log entitles to {ref[:40]}; log {log_text(log)[:300]}",
                       cs, csv(delivered), csv(ref))
     for i in (0, len(cases) // 2):
@@ -662,8 +937,8 @@ def _run_sessions(impl, cases, sessions, log, lvl, f0, rng, variant, **kw):
             exec_case(impl, c)
             cases.append(c)
             got, pos, status, took = c["impl"]
-            if status.startswith("raise") or status == "hang" or pos < c["f"] or (status == "all" and pos == c["f"]):
-                break                   # no progress / error: the property check reports it
+            if status not in ("all", "part") or pos < c["f"] or (status == "all" and pos == c["f"]):
+                break                   # no progress / error / refusal: the property check reports it
             c = gen.send(pos)
     except StopIteration:
         pass
@@ -700,6 +975,21 @@ def job(spec):
                                  "ret": [b.base for b in ret]}
                             exec_case(impl, c)
                             cases.append(c)
+        elif kind == "wire":
+            # every Fetch version the client can negotiate x both levels: sessions over the real
+            # Fetcher._get_actions_per_node -> FetchRequest -> FetchResponse_v<N> -> _proc_fetch_request
+            _, seedstr, n = spec
+            rng = random.Random(seedstr)
+            if impl.wire is None:
+                impl.wire = Wire(impl)
+            versions = impl.wire.versions
+            for i in range(n):
+                log, _ = gen_log(rng, dense=(i % 3 != 0))
+                hw = env_hw(log)
+                for v in versions:
+                    for lvl in ("rc", "ru"):
+                        f0 = rng.choice([0, 0, rng.randrange(0, hw + 1)])
+                        _run_sessions(impl, cases, sessions, log, lvl, f0, rng, variants[(i + v) % len(variants)], wire=v)
         elif kind == "raw":
             _, seedstr, n = spec
             rng = random.Random(seedstr)
@@ -717,8 +1007,14 @@ def job(spec):
     except _JobAbort as ja:
         cases.append(ja.args[0])
         sessions = [t for t in sessions if t[0] + t[1] <= len(cases) - 1]
+    except HarnessError as ex:
+        return {"harness": str(ex)}
+    finally:
+        if impl.wire is not None:
+            impl.wire.close()
+            impl.wire = None
     try:
-        return evaluate(exe, cases, sessions, generated=(kind in ("random", "exh")))
+        return evaluate(exe, cases, sessions, generated=(kind in ("random", "exh", "wire")))
     except HarnessError as ex:
         return {"harness": str(ex)}
 
@@ -839,6 +1135,12 @@ CORPUS = [
     {"kind": "fetch", "lvl": "rc", "f": 0, "e": 8, "idx": [[5, 0]],
      "log": "0:2:5:T:d:F:0.1.2;3:4:5:T:d:T:4;5:5:5:T:a:T:5;6:7:5:T:d:T:6.7;8:8:5:T:c:T:8", "script": ["all"],
      "variant": "cy", "gz": []},
+    # Fetch v4 is the first version that carries last_stable_offset / aborted_transactions: the response
+    # must reach PartitionRecords with its index (independent mutant of round 2, missed before the wire jobs)
+    {"kind": "fetch", "lvl": "rc", "f": 0, "e": 4, "idx": [[5, 0]], "log": "0:1:5:T:d:T:0.1;2:2:5:T:a:T:2;3:3:-1:F:d:T:3",
+     "script": ["all"], "variant": "cy", "gz": [], "wire": 4, "tail": 0},
+    {"kind": "fetch", "lvl": "rc", "f": 1, "e": 4, "idx": [[5, 0]], "log": "0:1:5:T:d:T:0.1;2:2:5:T:a:T:2;3:3:-1:F:d:T:3",
+     "script": ["one", "one"], "variant": "py", "gz": [], "wire": 11, "tail": 20},
 ]
 
 
@@ -854,9 +1156,11 @@ def run(ctx):
         "the compiled batch reader (_crecords .so as found in the tree) and the pure-Python reader are both driven; "
         "byte-level decoding itself is C09/C10's subject, here only base_offset, next_offset, producer_id, "
         "is_transactional, is_control_batch and the first control record's key are relied on",
-        "the asynchronous Fetcher around PartitionRecords (which response is accepted, position checks) belongs to C03; "
-        "of it only one fact is used and checked here by direct observation (no Lean model): a Fetcher built for a level "
-        "puts that level into every FetchRequest (v4+) and ListOffsets (v2+) struct it builds",
+        "the asynchronous Fetcher loop around PartitionRecords (which response is accepted, when to fetch) belongs to C03; "
+        "of the Fetcher the synchronous glue is exercised for real at every Fetch version (wire jobs): "
+        "_get_actions_per_node (position + level -> FetchRequest), _proc_fetch_request (FetchResponse_vN -> index, LSO, "
+        "records -> PartitionRecords/FetchResult), and the level in ListOffsets v2+ (glue observation); the broker "
+        "behind client.send is simulated and the ApiVersions negotiation is replaced by prepare({1: (v, v)})",
     ]
     ctx.coverage["modelled_not_proved"] = [
         "position after a partially consumed response (getone / getmany(max_records): Model `partialPos`/`takeK`) is "
@@ -912,6 +1216,10 @@ def run(ctx):
         per = 250 if ctx.thorough else 30
         for k in range(0, len(sel), per):
             jobs.append(("exh", f"{seed}:exh:{k}", sel[k:k + per]))
+        n_wire = 2400 if ctx.thorough else 90        # logs; each runs 11 versions x 2 levels sessions
+        per = 40 if ctx.thorough else 6
+        for k in range(0, n_wire, per):
+            jobs.append(("wire", f"{seed}:wire:{k}", min(per, n_wire - k)))
         n_raw = 40000 if ctx.thorough else 1500
         for k in range(0, n_raw, 500):
             jobs.append(("raw", f"{seed}:raw:{k}", min(500, n_raw - k)))
@@ -947,8 +1255,8 @@ def run(ctx):
         sess_total += R["sess_total"]
         sess_full += R["sess_full"]
         for smp in R["samples"]:
-            if spec[0] in ("random", "exh"):
-                ctx.sample(smp)
+            if spec[0] in ("random", "exh", "wire"):
+                ctx.sample(smp, limit=9)
     ctx.coverage["branch_histogram"] = dict(sorted(hist.items()))
     ctx.coverage["traces_validated_against_impl"] = ctx.coverage["evaluations"]
     ctx.coverage["sessions"] = {"total": sess_total, "run_to_log_end": sess_full}
@@ -963,7 +1271,9 @@ def run(ctx):
         "batches (also under a transactional producer id), solitary markers, offset gaps, compaction (records "
         "removed, batches removed, emptied batches, markers removed or emptied once their data is gone), gzip "
         "batches; index in random order with optional extra entries; plus every (fetch offset, cut, level) of small "
-        "interleavings (see exhaustive_small_logs); plus a faulty stream without broker contract; plus the corpus "
+        "interleavings (see exhaustive_small_logs); plus a faulty stream without broker contract; plus wire sessions "
+        "(every Fetch request version v1..v11 x both levels through the real Fetcher glue and real FetchResponse structs, "
+        "see branch_histogram wire:*); plus the corpus "
         "of past failures. non-trivial = the response contains a transactional or control batch; distinct by "
         "model input line")
 
